@@ -37,6 +37,7 @@ def run(ctx):
     rep = ctx.rep
     rep.rule("C18.R1", "prox template with operand provenance", 10)
     rep.rule("C18.R2", "position- vs velocity-level kinematic quantity", 5)
+    rep.rule("C18.R4", "one scalar prox parameter per vector-valued friction law (Coulomb direction)", 4)
     rep.rule("C18.R3", "active-set restriction of velocity-level normal percussions", 3)
     for rel, cname, q, level in SITES:
         cls = ctx.repo.get(rel, cname)
@@ -68,6 +69,12 @@ def run(ctx):
                 rep.ok("C18.R1", C, r["desc"])
             else:
                 rep.bad("C18.R1", C, c, "; ".join(r["problems"]), f"{rel}:{c.lineno}")
+            if r.get("scalar_r") is True:
+                rep.ok("C18.R4", C, f"scalar prox parameter in {r['desc'][:90]}")
+            elif r.get("scalar_r") is False:
+                rep.bad("C18.R4", C, c, r["scalar_msg"], f"{rel}:{c.lineno}")
+            elif r["kind"] == "F":
+                rep.note(f"C18.R4: {C}: prox parameter of `{r['desc'][:80]}` not classified (neither a reduction nor indexed like the slip)")
             # R2 level
             arg = c.args[0]
             if isinstance(arg, ast.Name) and arg.id in res.local:
@@ -134,8 +141,8 @@ MUTANTS = [
          old="        g_N = self.system.g_N(tn1, qn1)\n        prox_arg = (prox_r_N / self.dt) * g_N - P_N1",
          new="        g_N = self.system.g_N_dot(tn1, qn1, un12)\n        prox_arg = (prox_r_N / self.dt) * g_N - P_N1", expect="C18.R2"),
     dict(id="c18-m5", what="DualStormerVerlet: friction prox argument adds the force", file=DSV,
-         old="                            prox_r_F_contr[i_F] * gamma_F_contr[i_F]\n                            - Pi_Nn1_contr[i_F],",
-         new="                            prox_r_F_contr[i_F] * gamma_F_contr[i_F]\n                            + Pi_Nn1_contr[i_F],", expect="C18.R1"),
+         old="                            min(prox_r_F_contr[i_F]) * gamma_F_contr[i_F]\n                            - Pi_Nn1_contr[i_F],",
+         new="                            min(prox_r_F_contr[i_F]) * gamma_F_contr[i_F]\n                            + Pi_Nn1_contr[i_F],", expect="C18.R1"),
     dict(id="c18-m6", what="Moreau: friction projected with the normal prox parameter", file=MO,
          old="                min(self.prox_r_F[i_F]) * xi_F[i_F] - P_F[i_F],", new="                min(self.prox_r_N[i_N]) * xi_F[i_F] - P_F[i_F],", expect="C18.R1"),
     dict(id="c18-m7", what="BackwardEuler: normal prox uses the friction velocity", file=BE,
@@ -143,4 +150,14 @@ MUTANTS = [
     dict(id="c18-m8", what="Moreau restitution dropped from xi_N0", file=MO,
          old="            self.xi_N0 = e_N * (self.W_N.T @ un) + (1 + e_N) * chi_N", new="            self.xi_N0 = chi_N", expect="C18.R2"),
 ]
-NEUTRAL = []
+MUTANTS += [
+    dict(id="c18-r4-seed", canary=True, what="[seeded by sub-agent] Moreau: per-component prox parameters in the friction projection", file=MO,
+         old="                min(self.prox_r_F[i_F]) * xi_F[i_F] - P_F[i_F],", new="                self.prox_r_F[i_F] * xi_F[i_F] - P_F[i_F],", expect="C18.R4"),
+    dict(id="c18-r4-2", what="Rattle stage 2: per-component prox parameters (original defect)", file=RT,
+         old="                    min(prox_r_F_contr[i_F]) * xi_F_contr[i_F] - P_F_contr[i_F],", new="                    prox_r_F_contr[i_F] * xi_F_contr[i_F] - P_F_contr[i_F],", expect="C18.R4"),
+    dict(id="c18-r4-3", what="DualStormerVerlet: per-component prox parameters (original defect)", file=DSV,
+         old="                            min(prox_r_F_contr[i_F]) * gamma_F_contr[i_F]", new="                            prox_r_F_contr[i_F] * gamma_F_contr[i_F]", expect="C18.R4"),
+]
+NEUTRAL = [
+    dict(id="c18-n-r4", canary=True, what="Moreau: scalar parameter through np.min and a local", file=MO,
+         old="                min(self.prox_r_F[i_F]) * xi_F[i_F] - P_F[i_F],", new="                np.min(self.prox_r_F[i_F]) * xi_F[i_F] - P_F[i_F],"),]
